@@ -52,7 +52,7 @@ EXPECTED_PROBES = ["two_pass_kernel", "retry_after_alloc_error_pass1", "retry_af
                    "parallax_zero_aberration", "parallax_defocus_shift", "fractional_aperture_weight",
                    "parallax_with_rotation", "override_used", "cropped_mask_instance", "mask_not_a_disc", "energy_not_300kV",
                    "anisotropic_scan_sampling", "parallax_limit_on_cropped_instance",
-                   "recombination_more_than_two_parts", "batch_size_numpy_int"]
+                   "recombination_more_than_two_parts", "batch_size_numpy_int", "mask_calibrated_in_mrad"]
 
 KERNELS = {"ssb": ["ssb", "single-sideband", "acbf", "aberration-corrected-bright-field"],
            "obf": ["obf", "optimum-bright-field"], "mf": ["mf", "matched-filter"],
@@ -94,7 +94,7 @@ def setup():
             return 0
 
     dp.gc = _NoGC()
-    _ctx.update(torch=torch, dp=dp, D2=Dataset2d, D3=Dataset3d, lam=electron_wavelength_angstrom(300e3),
+    _ctx.update(torch=torch, dp=dp, D2=Dataset2d, D3=Dataset3d, lam=electron_wavelength_angstrom(300e3), lam_fn=electron_wavelength_angstrom,
                 fault=fault)
 
 
@@ -111,7 +111,9 @@ def gen(rng: Rng, tier, i):
             # beam energy, anisotropic scan sampling, masks that are not discs
             "energy": rng.fork("energy").pick([300e3, 300e3, 300e3, 80e3, 200e3]),
             "ss": rng.fork("ss").pick([[0.5, 0.5], [0.5, 0.5], [0.5, 0.5], [0.4, 0.7], [1.0, 0.25]]),
-            "mask_kind": rng.fork("mk").pick(["disc", "disc", "disc", "ring", "half", "blobs"])}
+            "mask_kind": rng.fork("mk").pick(["disc", "disc", "disc", "ring", "half", "blobs"]),
+            # calibration of the detector mask: reciprocal Angstrom, or milliradian (same pixels)
+            "mask_units": rng.fork("mu").pick(["A^-1", "A^-1", "mrad"])}
     for j in range(rng.pick([3, 4, 6])):
         r = rng.fork(("call", j))
         kern = r.pick(list(KERNELS))
@@ -173,10 +175,17 @@ def _stack(plan, nb, salt=0):
     return (g.random((nb, *plan["scan"])) + 0.5).astype(np.float32)
 
 
-def _make(plan, vbf, mask, ab=None, rot=None, crop_pad=None):
+def _make(plan, vbf, mask, ab=None, rot=None, crop_pad=None, units=None):
     ss = plan.get("ss", [0.5, 0.5])
     v = _ctx["D3"].from_array(vbf, sampling=(1, ss[0], ss[1]), units=("index", "A", "A"))
-    m = _ctx["D2"].from_array(mask, sampling=(plan["rs"], plan["rs"]), units=("A^-1", "A^-1"))
+    if (units or plan.get("mask_units", "A^-1")) == "mrad":
+        # angle = lambda * k, with the library's own wavelength so that both calibrations describe the
+        # same pixels to the last bit (the single-sideband kernels have exact cancellations whose
+        # round-off is cut at 1e-6: a 1e-6 relative change of k can flip single terms)
+        rs_mrad = plan["rs"] * float(_ctx["lam_fn"](plan.get("energy", 300e3))) * 1e3
+        m = _ctx["D2"].from_array(mask, sampling=(rs_mrad, rs_mrad), units=("mrad", "mrad"))
+    else:
+        m = _ctx["D2"].from_array(mask, sampling=(plan["rs"], plan["rs"]), units=("A^-1", "A^-1"))
     kw = {"crop_bf_mask": False} if crop_pad is None else {"crop_bf_mask": True,
                                                             "bf_mask_padding_px": crop_pad}
     return _ctx["dp"].DirectPtychography.from_virtual_bfs(
@@ -341,6 +350,23 @@ def run(plan):
             if not _relerr(D.corrected_bf.detach().numpy(), ref_bf) <= 5 * TOL:
                 viol("not_batch_or_history_invariant", f"{tag}: corrected_bf deviates",
                      f"not_batch_or_history_invariant:bf:{kern}")
+        # ---- the same detector pixels calibrated in mrad and in 1/A
+        if plan.get("mask_units") == "mrad" and plan["calls"]:
+            bump(probes, "mask_calibrated_in_mrad")
+            c0 = plan["calls"][0]
+            kw0 = {"deconvolution_kernel": c0["kernel"], "upsampling_factor": c0.get("up", 1),
+                   "parallax_flip_phase": c0.get("flip", True)}
+            ra = _make(plan, vbf.copy(), mask, units="A^-1").reconstruct(max_batch_size=None, **kw0
+                                                                          ).corrected_stack.detach().numpy()
+            rm = _make(plan, vbf.copy(), mask, units="mrad").reconstruct(max_batch_size=None, **kw0
+                                                                         ).corrected_stack.detach().numpy()
+            if np.isfinite(ra).all() and np.abs(ra).max() > 0:
+                # the independent wavelength formula agrees with the library's to ~1e-6: allow 1e-3
+                if ra.shape != rm.shape or not _relerr(rm, ra) <= 1e-3:
+                    viol("depends_on_mask_units", f"kernel {c0['kernel']}: the instance whose mask is "
+                         f"calibrated in mrad deviates from the 1/A instance by "
+                         f"{_relerr(rm, ra) if ra.shape == rm.shape else float('nan'):.3g}",
+                         f"depends_on_mask_units:{canon(c0['kernel'])}")
         # ---- cropped mask array vs the un-cropped one
         cr = plan.get("crop")
         if cr:
